@@ -50,6 +50,9 @@ type env struct {
 	resetter  *rig.Peer
 	proxies   map[string]*rig.Proxy
 	labelReg  *prometheus.Registry
+	regs      map[string]*prometheus.Registry // proxy name -> the registry its transport and the proxy share
+	dialMu    sync.Mutex
+	dials     map[string]map[string]bool // proxy name -> every address its dialer was left with (after --connect-to)
 	scripts   sync.Map // case id -> *script
 	used      sync.Map // proxy name -> true: the instances the batch went through
 	targets   map[string]string // virtual port -> real address (for the upstream proxy's tunnels)
@@ -242,7 +245,8 @@ func pipe(pc *rig.PeerConn, back net.Conn) {
 }
 
 func newEnv(root string) (*env, error) {
-	e := &env{root: root, tlsFaults: map[string]*rig.Peer{}, proxies: map[string]*rig.Proxy{}, targets: map[string]string{}}
+	e := &env{root: root, tlsFaults: map[string]*rig.Peer{}, proxies: map[string]*rig.Proxy{}, targets: map[string]string{},
+		regs: map[string]*prometheus.Registry{}, dials: map[string]map[string]bool{}}
 	var err error
 	if e.ca, err = rig.NewCA("c12 origin CA"); err != nil {
 		return nil, err
@@ -363,7 +367,13 @@ func newEnv(root string) (*env, error) {
 	if err != nil {
 		return nil, err
 	}
-	mk := func(name, upstream string, mitm, tlsListener bool, reg *prometheus.Registry) error {
+	mk := func(name, upstream string, mitm, tlsListener, handler bool, reg *prometheus.Registry) error {
+		// command/run hands ONE registry to the transport (whose forwarder.Dialer labels its metrics with the
+		// host of every address it dials) and to the proxy; MITM and the TLS listener need one
+		if reg == nil {
+			reg = prometheus.NewRegistry()
+		}
+		e.regs[name] = reg
 		p, err := rig.StartProxy(rig.ProxyOpts{
 			ConnectTo: routes,
 			Transport: func(tc *forwarder.HTTPTransportConfig) {
@@ -372,6 +382,17 @@ func newEnv(root string) (*env, error) {
 				// are the only ones that run into these
 				tc.DialTimeout = 2 * time.Second
 				tc.TLSClientConfig.HandshakeTimeout = 2500 * time.Millisecond
+				tc.PromRegistry = reg
+				tc.PromNamespace = promNamespace
+				// every address the dialer is left with after --connect-to: what its metrics are labelled from
+				inner := tc.RedirectFunc
+				tc.RedirectFunc = func(network, address string) (string, string) {
+					if inner != nil {
+						network, address = inner(network, address)
+					}
+					e.noteDial(name, address)
+					return network, address
+				}
 			},
 			PostTransport: func(rt *http.Transport) { rt.DisableKeepAlives = true },
 			Configure: func(cfg *forwarder.HTTPProxyConfig) {
@@ -392,17 +413,16 @@ func newEnv(root string) (*env, error) {
 					port := map[string]string{"dead": portUpDead, "hole": portUpHole, "rst": portUpReset}[strings.TrimPrefix(upstream, "s")]
 					cfg.UpstreamProxy = rig.MustURL(scheme + "://upstream.test:" + port)
 				}
-				// command/run always hands over a registry; MITM and the TLS listener need one
-				cfg.PromRegistry = prometheus.NewRegistry()
+				cfg.PromRegistry = reg
+				cfg.PromNamespace = promNamespace
 				if mitm {
 					cfg.MITM = forwarder.DefaultMITMConfig()
-				}
-				if reg != nil {
-					cfg.PromRegistry = reg
 				}
 				if tlsListener {
 					cfg.Protocol = forwarder.HTTPSScheme
 				}
+				// martian's http.Handler under net/http's server instead of the TCP server (proxy_handler.go)
+				cfg.TestingHTTPHandler = handler
 			},
 		})
 		e.proxies[name] = p
@@ -422,18 +442,45 @@ func newEnv(root string) (*env, error) {
 		{"sdead", "sdead", false, false, nil}, {"sdeadmitm", "sdead", true, false, nil},
 		{"shole", "shole", false, false, nil}, {"sholemitm", "shole", true, false, nil},
 		{"srst", "srst", false, false, nil}, {"srstmitm", "srst", true, false, nil},
+		// the same proxy served through martian's http.Handler (no interception there)
+		{"hdirect", "", false, false, nil}, {"hup", "up", false, false, nil}, {"htls", "", false, true, nil},
 	} {
-		if err := mk(pd.name, pd.up, pd.mitm, pd.tls, pd.reg); err != nil {
+		if err := mk(pd.name, pd.up, pd.mitm, pd.tls, handlerProxies[pd.name], pd.reg); err != nil {
 			return nil, fmt.Errorf("proxy %s: %w", pd.name, err)
 		}
 	}
 	return e, nil
 }
 
+// handlerProxies are the instances served through martian's http.Handler (HTTPProxyConfig.TestingHTTPHandler).
+var handlerProxies = map[string]bool{"hdirect": true, "hup": true, "htls": true}
+
+// promNamespace is the metrics namespace of every proxy instance (command/run: the same for transport and proxy).
+const promNamespace = "fwdverif"
+
+func (e *env) noteDial(proxy, address string) {
+	e.dialMu.Lock()
+	m := e.dials[proxy]
+	if m == nil {
+		m = map[string]bool{}
+		e.dials[proxy] = m
+	}
+	m[address] = true
+	e.dialMu.Unlock()
+}
+
 // proxyFor picks the proxy instance a case goes through.
 func (e *env) proxyFor(c *Case) (string, *rig.Proxy) {
 	name := "direct"
 	switch {
+	case c.Server == "handler" && c.Kind == "client" && c.Via == "tls":
+		name = "htls"
+	case c.Server == "handler" && c.Kind == "client":
+		name = "hdirect"
+	case c.Server == "handler" && c.Upstream == "":
+		name = "hdirect"
+	case c.Server == "handler":
+		name = "h" + c.Upstream
 	case c.Kind == "label":
 		name = "label"
 	case c.Kind == "client" && c.Via == "tls":
